@@ -149,7 +149,9 @@ def gen_history(rng, idx):
                 if c["kind"] == "pti_pto":
                     ein["comp"][c["name"]]["mode"] = [1.0] * ein["n"]
                     ein["comp"][c["name"]]["status"] = [True] * ein["n"]
-            inp = {"n": ein["n"], "dt": ein["dt"], "breaker": ein["breaker"], "comp": ein["comp"], "mech": mi["comp"]}
+            inp = {"n": ein["n"], "dt": ein["dt"], "breaker": ein["breaker"], "comp": ein["comp"], "mech": mi["comp"],
+                   "flags": {k: v for k, v in ein.items() if k not in ("n", "dt", "breaker", "comp")},
+                   "mech_flags": {k: v for k, v in mi.items() if k not in ("n", "dt", "comp")}}
         if shifted is not None:
             inp["breaker"] = shifted
             inp["shifted_breakers"] = True
